@@ -304,6 +304,7 @@ def verify(contract: Contract, src: SourceIndex = None, contracts=None, timeout_
     ctx.contracts[(modname, qual)] = contract
     if extra_ctx:
         extra_ctx(ctx)
+    ctx.assume_proved = bool(getattr(contract, "assume_proved", False))
     ctx.loop_specs = dict(getattr(contract, "loops", {}) or {})
     ctx.while_specs = dict(getattr(contract, "while_loops", {}) or {})
     ctx.comp_loop_specs = dict(getattr(contract, "comprehension_loops", {}) or {})
